@@ -70,6 +70,9 @@ def plan(tier, seed):
         shards.append(("reassign", ui, 3 if tier == "quick" else 4))
     for ui in range(NUBI):
         shards.append(("indexer_refine", ui))
+    shards.append(("flat",))
+    for gi in (3, 12, 22):
+        shards.append(("rgpositions", gi))
     shards.append(("exact",))
     shards.append(("callers",))
     shards.append(("rgrefine",))
@@ -422,6 +425,46 @@ def _run_indexer_refine(desc):
     return sh
 
 
+def _run_flat(desc):
+    """a flat layer of g-vectors (all with gz exactly 0: one detector row, a 2-D simulation) scored with a TILTED matrix at a loose
+    tolerance: the rounded hkl are not coplanar (the sum of h.h^T is regular) but the sum of g.h^T has a zero row, so UB = R.H^-1 cannot be
+    inverted - the normal equations give no matrix, and the input must come back unchanged, with the right count and mean error"""
+    from ImageD11 import cImageD11 as cI, indexing
+    indexing.loglevel = 4
+    sh = Shard()
+    a = 4.0
+    gv = np.ascontiguousarray(np.array([(h / a, k / a, 0.0) for h in range(-2, 3) for k in range(0, 7)], float))
+    for axis, ang in (((1, 0, 0), 6.0), ((1, 0, 0), -7.0), ((0, 1, 0), 6.5), ((1, 1, 0), 8.0)):
+        ubi = np.ascontiguousarray(np.dot(np.eye(3) * a, O.rotation_from_axis_angle(axis, ang).T))
+        for tol in (0.45, 0.5):
+            h = np.dot(ubi, gv.T)
+            ih = np.round(h)
+            e = ((h - ih) ** 2).sum(axis=0)
+            if (np.abs(e - tol * tol) < 1e-9).any() or np.abs(h - ih).max() > 0.4999:
+                sh.borderline += 1
+                continue
+            sel = e < tol * tol
+            H = np.dot(ih[:, sel], ih[:, sel].T)
+            case = {"kind": "flat", "axis": list(axis), "angle": ang, "tol": tol}
+            if abs(np.linalg.det(H)) < 0.5 or int(sel.sum()) < 4:
+                sh.count("flat_cases_with_coplanar_hkl")
+                continue
+            u = ubi.copy()
+            n, mean = cI.score_and_refine(u, gv, tol)
+            if n != int(sel.sum()) or abs(mean - e[sel].mean()) > 1e-12:
+                sh.violation("score_and_refine[flat layer]:count-or-error", case, {"n": int(n), "expected": int(sel.sum())})
+            elif not np.array_equal(u, ubi):
+                sh.violation("score_and_refine[flat layer]:matrix-changed-although-UB-cannot-be-inverted", case, {"got": u, "input": ubi})
+            up = indexing.refine(ubi.copy(), gv, tol)
+            if not np.array_equal(np.asarray(up), ubi):
+                sh.violation("indexing.refine[flat layer]:matrix-changed-although-UB-cannot-be-inverted", case, {"got": up})
+            sh.evaluations += 1
+            sh.nontrivial += 1
+            sh.outcomes.add(("flat", int(sel.sum())))
+    sh.sample(case, limit=1)
+    return sh
+
+
 def _run_reassign(desc):
     """assign / the matrix changes / assign again with the SAME label on ONE labels array (an iterative fit): for every sequence
     (length <= 3, thorough 4) over 5 trial matrices, after every call the peaks carrying the label are exactly the peaks within the
@@ -564,6 +607,79 @@ def _run_exact(desc):
     return sh
 
 
+def _run_rgpositions(desc):
+    """refinegrains.refinepositions (translation by simplex, then the matrix by score_and_refine over the grain's own peaks): afterwards
+    EVERY grain's matrix - not only the first one's - is the least-squares solution over all the peaks carrying its label, for the
+    g-vectors at its refined position"""
+    _, gi = desc
+    import io, contextlib, shutil
+    from ImageD11 import refinegrains, transform as tr
+    from vt.props import c09
+    sh = Shard()
+    pars = c09.geometries("quick")[gi]
+    truth = c09.true_grains(3, 0)
+    # every grain is slightly split: three quarters of its reflections come from the main part, a quarter from a sub-grain with the same
+    # orientation 250 um away; the grain file puts the grain in between.  Once the position has moved to the main part the sub-grain's
+    # peaks are further from the lattice than the user's tolerance - they still carry the label and belong in the fit
+    shift = np.array([100.0, -75.0, 50.0])
+    pa = c09.simulate(tr, pars, [(u, t + shift) for u, t in truth])
+    pb = c09.simulate(tr, pars, [(u, t - shift) for u, t in truth])
+    if len(pa) != len(pb) or not np.array_equal(pa[:, 3:7], pb[:, 3:7]):
+        pa = pa[np.lexsort((pa[:, 6], pa[:, 5], pa[:, 4], pa[:, 3]))]
+        pb = pb[np.lexsort((pb[:, 6], pb[:, 5], pb[:, 4], pb[:, 3]))]
+    nmin = min(len(pa), len(pb))
+    peaks = np.array([pb[k] if k % 4 == 3 else pa[k] for k in range(nmin)])
+    start = [(u.copy(), t.copy()) for u, t in truth]
+    wd = os.path.join(c09.WORK, "c06_rp_%d" % os.getpid())
+    shutil.rmtree(wd, ignore_errors=True)
+    os.makedirs(wd)
+    try:
+        fn = os.path.join(wd, "p.flt")
+        with open(fn, "w") as fh:
+            fh.write("#  sc  fc  omega  Number_of_pixels  avg_intensity  sum_intensity\n")
+            for k in range(len(peaks)):
+                fh.write("%.4f  %.4f  %.4f  %.0f  %.4f  %.4f\n" % (peaks[k, 0], peaks[k, 1], peaks[k, 2], 10, 100.0, 1000.0))
+        with contextlib.redirect_stdout(io.StringIO()):
+            o = refinegrains.refinegrains(tolerance=0.02, OmFloat=False)
+            o.parameterobj.set_parameters(dict(pars))
+            o.loadfiltered(fn)
+            for gidx, (ubi, t) in enumerate(start):
+                o.grainnames.append(gidx)
+                o.ubisread[gidx] = ubi.copy()
+                o.translationsread[gidx] = t.copy()
+            o.generate_grains()
+            o.refinepositions()
+        col = o.scandata[fn]
+        lab = np.asarray(col.labels).astype(int)
+        det = {k: pars[k] for k in ("distance", "y_center", "z_center", "y_size", "z_size", "tilt_x", "tilt_y", "tilt_z", "o11", "o12", "o21", "o22")}
+        xyz = tr.compute_xyz_lab(np.array([col.sc, col.fc]), **det)
+        om = np.asarray(col.omega) * pars["omegasign"]
+        for gidx in range(len(start)):
+            g = o.grains[(gidx, fn)]
+            t = np.asarray(g.translation, float)
+            tth, eta = tr.compute_tth_eta_from_xyz(xyz, om, t_x=t[0], t_y=t[1], t_z=t[2], wedge=pars["wedge"], chi=pars["chi"])
+            gv = tr.compute_g_vectors(tth, eta, om, pars["wavelength"], wedge=pars["wedge"], chi=pars["chi"]).T
+            sel = lab == gidx
+            case = {"kind": "rgpositions", "geometry": gi, "grain": gidx}
+            if sel.sum() < 10:
+                sh.violation("refinepositions:grain-lost-its-peaks", case, {"peaks": int(sel.sum())})
+                continue
+            fit = oracle(np.asarray(g.ubi, float), np.ascontiguousarray(gv), 0.0, sel=sel)
+            if fit.get("status") != "ok":
+                sh.borderline += 1
+                continue
+            if not np.allclose(np.asarray(g.ubi, float), fit["ubi"], rtol=1e-6, atol=max(fit["atol"], 1e-9)):
+                sh.violation("refinepositions:matrix-is-not-the-least-squares-fit-over-the-peaks-carrying-the-grain's-label", case,
+                             {"max_diff": float(np.abs(np.asarray(g.ubi, float) - fit["ubi"]).max()), "labelled_peaks": int(sel.sum())})
+            sh.evaluations += 1
+            sh.nontrivial += 1
+        sh.outcomes.add(("rgpositions", gi))
+        sh.sample(case, limit=1)
+    finally:
+        shutil.rmtree(wd, ignore_errors=True)
+    return sh
+
+
 def _run_rgrefine(desc):
     """refinegrains.refine (the method the position refinement calls on every step): it returns the refined matrix and leaves the
     matrix it was given alone, so that calling it again with the same array gives the same answer"""
@@ -608,7 +724,7 @@ def _run_rgrefine(desc):
 
 
 def run_shard(desc):
-    return {"indexer_refine": _run_indexer_refine, "reassign": _run_reassign, "callers": _run_callers, "exact": _run_exact, "rgrefine": _run_rgrefine, "multi": _run_multi, "assigned": _run_assigned, "long": _run_long, "getind": _run_getind}[desc[0]](desc)
+    return {"rgpositions": _run_rgpositions, "flat": _run_flat, "indexer_refine": _run_indexer_refine, "reassign": _run_reassign, "callers": _run_callers, "exact": _run_exact, "rgrefine": _run_rgrefine, "multi": _run_multi, "assigned": _run_assigned, "long": _run_long, "getind": _run_getind}[desc[0]](desc)
 
 
 def replay(case):
@@ -628,6 +744,10 @@ def replay(case):
         sh.violations = [v for v in _run_exact(("exact",)).violations if v["case"]["tol"] == case["tol"] and v["case"]["scale"] == case["scale"]]
     elif case["kind"] == "rgrefine":
         sh.violations = [v for v in _run_rgrefine(("rgrefine",)).violations if v["case"]["ubi"] == case["ubi"]]
+    elif case["kind"] == "rgpositions":
+        sh.violations = [v for v in _run_rgpositions(("rgpositions", case["geometry"])).violations if v["case"]["grain"] == case["grain"]]
+    elif case["kind"] == "flat":
+        sh.violations = [v for v in _run_flat(("flat",)).violations if v["case"]["angle"] == case["angle"] and v["case"]["tol"] == case["tol"]]
     elif case["kind"] == "indexer_refine":
         sh.violations = [v for v in _run_indexer_refine(("indexer_refine", case["ubi"])).violations if v["case"]["rings"] == case["rings"]]
     elif case["kind"] == "reassign":
